@@ -3,7 +3,8 @@
 Case (JSON):
   {"ifaces":  [[base iface ids] ...]      interface k+1 (interface 0 is zope.interface.Interface)
    "classes": [[base class ids] ...]      class k+1 (class 0 is ``object``); never empty lists
-   "objects": [[class id, [direct iface ids]] ...]
+   "objects": [[class id, [direct iface ids], falsy?] ...]   (falsy instances need "falsy": "len" | "bool":
+                                          every class then defines __len__ / __bool__ reading a per-instance flag)
    "ops": [...]}
 ops:
   ["impl", c, [ifaces]]   classImplements          ["only", c, [ifaces]]  classImplementsOnly
@@ -49,11 +50,20 @@ class World:
             self.ifaces.append(InterfaceClass("I%d" % (k + 1), tuple(self.ifaces[b] for b in bs) or (Interface,),
                                               {}, __module__="verif.c19"))
         self.classes = [object]
+        # instances flagged falsy are false in a boolean context, through __len__() == 0 or __bool__
+        ns = {"__module__": "verif.c19"}
+        if case.get("falsy") == "len":
+            ns["__len__"] = lambda self: 0 if self.__dict__.get("_falsy") else 1
+        elif case.get("falsy") == "bool":
+            ns["__bool__"] = lambda self: not self.__dict__.get("_falsy")
         for k, bs in enumerate(case["classes"]):
-            self.classes.append(type("C%d" % (k + 1), tuple(self.classes[b] for b in bs), {"__module__": "verif.c19"}))
+            self.classes.append(type("C%d" % (k + 1), tuple(self.classes[b] for b in bs), dict(ns)))
         self.objects = []
-        for c, direct in case["objects"]:
+        for o in case["objects"]:
+            c, direct = o[0], o[1]
             ob = self.classes[c]()
+            if len(o) > 2 and o[2]:
+                ob._falsy = True
             if direct:
                 directlyProvides(ob, *[self.ifaces[i] for i in direct])
             self.objects.append(ob)
